@@ -253,6 +253,8 @@ def run(tier):
         r1(prog, rep)
         r2_r3(prog, rep)
         r4(prog, rep)
+        from . import c01
+        c01.ctx_typestate(prog, rep, [UNIT])
     n = len(configs)
     rep.require_min("R1-failclosed", 9 * n)
     rep.require_min("R3-template", 6 * n)
